@@ -346,14 +346,24 @@ func replay(workers []string, calls []callSpec, steps []step) (string, string, i
 
 func stress(seed int64, calls int) []failure {
 	var fails []failure
-	for _, w := range []int{1, 2, 3, 4, 16} {
-		p := pool.NewPool(w)
+	// 0 workers = the nil pool: the same calls on the calling goroutine must give the same results
+	for _, w := range []int{0, 1, 2, 3, 4, 16} {
+		var p *pool.Pool
+		if w > 0 {
+			p = pool.NewPool(w)
+		}
 		before := runtime.NumGoroutine()
 		doneCh := make(chan string, 1)
 		go func() {
+			defer func() {
+				if r := recover(); r != nil {
+					doneCh <- fmt.Sprintf("a call on %d workers panicked: %v", w, r)
+				}
+			}()
 			for c := 0; c < calls; c++ {
 				k := (c*7 + int(seed)) % 9
 				if c%3 == 2 {
+					k = (c/3 + int(seed)) % 5 // every count 0..4, whatever the seed
 					var n int32
 					r := p.Search(k, func() interface{} {
 						if atomic.AddInt32(&n, 1)%3 == 0 {
